@@ -70,6 +70,7 @@ pub fn run_chistory(
     }
     if viol.is_none() {
         for (i, op) in hist.iter().enumerate() {
+            crate::run::breadcrumb(&json!({"layer": layer, "history": chist(&hist[..=i])}));
             let out = w.apply(op);
             res.transitions += 1;
             let canonical = i + 1 >= canonical_from;
